@@ -35,8 +35,8 @@ type Outcome struct {
 	Sample interface{} `json:"sample,omitempty"`
 }
 
-func (o *Outcome) Fault(k string)        { o.addTo(&o.Faults, k, 1) }
-func (o *Outcome) Probe(k string)        { o.addTo(&o.Probes, k, 1) }
+func (o *Outcome) Fault(k string)           { o.addTo(&o.Faults, k, 1) }
+func (o *Outcome) Probe(k string)           { o.addTo(&o.Probes, k, 1) }
 func (o *Outcome) ProbeN(k string, n int64) { o.addTo(&o.Probes, k, n) }
 func (o *Outcome) addTo(m *map[string]int64, k string, n int64) {
 	if *m == nil {
@@ -139,6 +139,10 @@ type EngineSpec struct {
 type PropSpec struct {
 	Run   RunFunc
 	Modes []string // cycled through by run index; at least one
+	// NoReexec lists violation classes whose oracle cannot fire a second
+	// time in the same process; they are neither shrunk nor re-checked
+	// in-process.
+	NoReexec map[string]bool
 }
 
 func writeU64s(path string, set map[uint64]struct{}) error {
@@ -347,25 +351,49 @@ func workerCmd(spec EngineSpec, args []string) {
 		seenKeys[out.Class+"|"+out.Key] = true
 
 		// Minimise, then re-execute the minimised tape verbosely.
+		//
+		// What is reported is always the class/key/detail that was actually
+		// OBSERVED (first on the generated tape, then on the minimised one) -
+		// never a class that a re-execution failed to produce. Some oracles
+		// cannot fire twice in one process (the race detector reports each
+		// race once per process): those classes are listed in
+		// PropSpec.NoReexec, are not shrunk, and carry Replayed=false so that
+		// the driver's fresh-process replay is the only thing that can
+		// confirm them.
 		orig := append([]uint32(nil), tape.Recorded()...)
 		sopt := opt
 		sopt.Verbose = false
-		min, tries := Shrink(orig, out.Class, *shrinkTries, func(c []uint32) string {
-			return ps.Run(ReplayTape(c), sopt).Class
-		})
 		vopt := opt
 		vopt.Verbose = true
-		final := ps.Run(ReplayTape(min), vopt)
-		if final.Class != out.Class {
-			// Should not happen (shrink only keeps same-class tapes); fall
-			// back to the original tape.
-			min = orig
-			final = ps.Run(ReplayTape(min), vopt)
+		min, tries := orig, 0
+		rep := out // the observation being reported
+		replayed := false
+		if !ps.NoReexec[out.Class] {
+			min, tries = Shrink(orig, out.Class, *shrinkTries, func(c []uint32) string {
+				return ps.Run(ReplayTape(c), sopt).Class
+			})
+			final := ps.Run(ReplayTape(min), vopt)
+			if final.Class != out.Class {
+				// The minimised tape does not reproduce: fall back to the
+				// tape that did fail.
+				min = orig
+				final = ps.Run(ReplayTape(min), vopt)
+			}
+			if final.Class == out.Class {
+				rep = final
+				again := ps.Run(ReplayTape(min), sopt)
+				replayed = again.Class == final.Class && again.Key == final.Key
+			}
+			// else: not reproducible in-process at all; report the original
+			// observation with replayed=false and let the driver decide.
 		}
-		again := ps.Run(ReplayTape(min), sopt)
+		if rep.Class == "" {
+			fmt.Fprintln(os.Stderr, "sim: internal error: violation with an empty class")
+			os.Exit(2)
+		}
 		rf := ReplayFile{Property: *prop, Engine: spec.Name, Seed: *seed, Worker: *worker, Run: run,
-			Mode: mode, Tier: *tier, Extra: ex, Class: final.Class, Key: final.Key, Detail: final.Detail,
-			Tape: min, Trace: capTrace(final.Trace, 400)}
+			Mode: mode, Tier: *tier, Extra: ex, Class: rep.Class, Key: rep.Key, Detail: rep.Detail,
+			Tape: min, Trace: capTrace(rep.Trace, 400)}
 		name := fmt.Sprintf("%s-%d-%d.json", *prop, *seed, run)
 		path := filepath.Join(*replays, name)
 		b, _ := json.MarshalIndent(rf, "", " ")
@@ -373,9 +401,9 @@ func workerCmd(spec EngineSpec, args []string) {
 			fmt.Fprintln(os.Stderr, "cannot write replay:", err)
 			os.Exit(2)
 		}
-		res.Violations = append(res.Violations, Violation{Class: final.Class, Key: final.Key, Detail: final.Detail,
+		res.Violations = append(res.Violations, Violation{Class: rep.Class, Key: rep.Key, Detail: rep.Detail,
 			Run: run, Mode: mode, Replay: path, TapeLen: len(min), OrigLen: len(orig), ShrinkN: tries,
-			Replayed: again.Class == final.Class && again.Key == final.Key})
+			Replayed: replayed})
 		if len(res.Violations) >= *maxViol {
 			break
 		}
